@@ -152,3 +152,61 @@ package proxy
 //@   at-call SetReadHeaderTimeout as to: assert arg0 == readHeaderTimeout
 //@   at-call NewConn as nc: assert arg0 == conn && len(arg1) == 2 && arg1[0] == res(wp) && arg1[1] == res(to)
 //@   ensures [wrapped] called(nc) && ref(result) == res(nc)
+
+// ---- C17: fallback / initial server choice ------------------------------------------------------------
+
+// sameServerName(server object, name): the registered server's name equals name (deterministic; ServerInfo is immutable).
+// registeredServer(proxy, name): the server currently registered under name, nil if none (stable during one call).
+//@ ufn sameServerName(rs ref, name string) bool
+//@ ufn registeredServer(px ref, name string) ref
+//@ spec pred skipName(p *connectedPlayer, current RegisteredServer, name string) = (p.connectedServer_ != nil && sameServerName(p.connectedServer_.server, name)) || (p.connInFlight != nil && sameServerName(p.connInFlight.server, name)) || (current != nil && sameServerName(ref(current), name))
+
+//@ func (*serverConnection).Server
+//@   props C17
+//@   modifies nothing
+//@   ensures [server-of-connection] s != nil ==> ref(result) == s.server
+
+//@ func (*connectedPlayer).nextServerToTry$1
+//@   nobody
+//@   why: the name of a registered server is immutable; comparing it is a deterministic function of (server, name)
+//@   modifies nothing
+//@   ensures result == sameServerName(ref(rs), name)
+
+//@ func (*Proxy).Server
+//@   nobody
+//@   why: the server registry is treated as stable for the duration of one nextServerToTry call; (*Proxy).Server returns an untyped nil when absent
+//@   modifies nothing
+//@   ensures ref(result) == registeredServer(p, name) && (registeredServer(p, name) == nil ==> result == nil)
+
+// The list is the forced-hosts list of the (cleaned, lower-cased) virtual host if that is non-empty, else the try list,
+// chosen only while no list is set. The search returns the first listed server from tryIndex on that is registered and
+// is neither the connected, the in-flight nor the `current` (failed) server; nil when none remains.
+//@ func (*connectedPlayer).nextServerToTry
+//@   props C17
+//@   at-call getVirtualHostname as vh: assert arg0 == p && len(p.serversToTry) == 0
+//@   at-call config#1 as cfg1
+//@   at-call config#2 as cfg2
+//@   at-store serversToTry: assert [list-choice] (called(cfg2) && value == res(cfg2).Try && len(value) != 0 && len(p.serversToTry) == 0) || (!called(cfg2) && called(vh) && value == res(cfg1).ForcedHosts[res(vh)])
+//@   requires p.tryIndex >= 0
+//@   loop 1: invariant i >= old(p.tryIndex)
+//@   loop 1: invariant forall k int :: old(p.tryIndex) <= k && k < i ==> skipName(p, current, p.serversToTry[k]) || registeredServer(p.proxy, p.serversToTry[k]) == nil
+//@   ensures [first-usable] result != nil ==> exists j int :: old(p.tryIndex) <= j && j < len(p.serversToTry) && p.tryIndex == j && !skipName(p, current, p.serversToTry[j]) && ref(result) == registeredServer(p.proxy, p.serversToTry[j]) && (forall k int :: old(p.tryIndex) <= k && k < j ==> skipName(p, current, p.serversToTry[k]) || registeredServer(p.proxy, p.serversToTry[k]) == nil)
+//@   ensures [none-left] result == nil ==> forall k int :: old(p.tryIndex) <= k && k < len(p.serversToTry) ==> skipName(p, current, p.serversToTry[k]) || registeredServer(p.proxy, p.serversToTry[k]) == nil
+
+//@ func (*sessionHandlerDeps).config
+//@   props C17
+//@   modifies nothing
+//@ func (*connectedPlayer).config
+//@   props C17
+//@   modifies nothing
+
+// virtual host -> lower(hostOf(clear(virtualHost.String()))); empty when the client sent none.
+//@ func (*connectedPlayer).getVirtualHostname
+//@   props C17
+//@   modifies nothing
+//@   at-call String as vs: assert arg0 == p.virtualHost
+//@   at-call ClearVirtualHost as clr: assert streq(arg0, res(vs))
+//@   at-call HostStr as hs: assert streq(arg0, res(clr))
+//@   at-call ToLower as low: assert streq(arg0, res(hs))
+//@   ensures [no-vhost] p.virtualHost == nil ==> len(result) == 0
+//@   ensures [cleaned-lowercase-host] p.virtualHost != nil ==> called(low) && streq(result, res(low))
